@@ -5,7 +5,7 @@ A program is a tree of nodes; a node is a dict
                            running concurrency control TASK + reroute (n_c0: one execution RUNNING at a time)
    "mr": 0|1|2,            max_retries of the task that runs the node
    "sc": ["ret", v] | ["slow", seconds, v] | ["retry_until", k, v] | ["always_retry"] | ["fail", msg],
-   "kids": [nodes], "call": "single"|"group"}
+   "kids": [nodes], "call": "single"|"group"|"group_first"}
 Every node body counts its executions in STATE["exec"][path] (the harness reads it),
 calls its children (singly through .result / the direct wrapper, or as one parallelize
 group whose results are combined with an order-insensitive sum), then follows its script.
@@ -53,7 +53,13 @@ def _body(spec: dict, path: str) -> Any:
             k0 = kids[0]
             t = STATE["tasks"][("c" if k0["fl"] == "c" else "p", k0["mr"])]
             grp = t.parallelize([(kid, f"{path}.{i}") for i, kid in enumerate(kids)])
-            total += sum(grp.results)
+            if spec.get("call") == "group_first":
+                # a consumer that stops after the first result it gets (which member that is may differ between
+                # modes: the value is not used); the other members were submitted all the same
+                for _ in grp.results:
+                    break
+            else:
+                total += sum(grp.results)
     sc = spec["sc"]
     if sc[0] == "ret":
         return sc[1] + total
